@@ -87,6 +87,20 @@ type MonitorRequest struct {
 	Select  *MonitorSelect `json:"select,omitempty"`
 }
 
+// MarshalJSON keeps a column list that is present but empty (no columns)
+// apart from one that is absent (every column)
+func (m MonitorRequest) MarshalJSON() ([]byte, error) {
+	type plain MonitorRequest
+	if m.Columns == nil || len(m.Columns) > 0 {
+		return json.Marshal(plain(m))
+	}
+	return json.Marshal(struct {
+		Columns []string       `json:"columns"`
+		Where   []Condition    `json:"where,omitempty"`
+		Select  *MonitorSelect `json:"select,omitempty"`
+	}{m.Columns, m.Where, m.Select})
+}
+
 // TransactResponse represents the response to a Transact Operation
 type TransactResponse struct {
 	Result []OperationResult `json:"result"`
